@@ -250,7 +250,7 @@ static long int cfg_opt_gettsecidx(cfg_opt_t *opt, const char *title)
 		if (!sec || !sec->title)
 			return -1;
 
-		if (is_set(CFGF_NOCASE, opt->flags)) {
+		if (is_set(CFGF_NOCASE, opt->flags | sec->flags)) {
 			if (strcasecmp(title, sec->title) == 0)
 				return i;
 		} else {
@@ -2466,7 +2466,7 @@ DLLIMPORT int cfg_opt_rmtsec(cfg_opt_t *opt, const char *title)
 		if (!sec || !sec->title)
 			return CFG_FAIL;
 
-		if (is_set(CFGF_NOCASE, opt->flags)) {
+		if (is_set(CFGF_NOCASE, opt->flags | sec->flags)) {
 			if (strcasecmp(title, sec->title) == 0)
 				break;
 		} else {
